@@ -15,8 +15,8 @@ from ..world import World, digest_obj, stamp, walk_files, write_file
 
 TAMPERS = ["truncate", "append", "rewrite-same-len", "rewrite-other-len", "replace-by-rename",
            "replace-by-rename-same-len-same-mtime"]
-QUERIES = ["check", "exist1", "exist2", "hcheck", "checkout", "add-verify-good", "add-verify-bad",
-           "add-verify-good-force", "add-verify-bad-force"]
+QUERIES = ["check", "exist1", "exist2", "exist-bulk", "hcheck", "checkout", "add-verify-good", "add-verify-bad",
+           "add-verify-good-force", "add-verify-bad-force", "xfer-verify-bad"]
 # a legacy (md5-dos2unix) store holding a CRLF text object that spans two hashing chunks
 BIG_TEXT = b"line\r\n" * 174770 + b"tail of the text\r\n"
 
@@ -140,8 +140,13 @@ def run_seq(seq, kind, statemode, target, keep_protected=False, near=False):
                         res = "rejected"
                     except FileNotFoundError:
                         res = "notfound"
-                elif op in ("exist1", "exist2"):
+                elif op in ("exist1", "exist2", "exist-bulk"):
                     ids = [oid] if op == "exist1" else [oid, oid_y]
+                    if op == "exist-bulk":
+                        # one query of 1301 ids (the others are absent): above every paging / batching constant
+                        from ..lab import BULK_MD5
+
+                        ids = list(BULK_MD5.values())[:650] + [oid] + list(BULK_MD5.values())[650:]
                     got = odb.oids_exist(ids)
                     res = "accepted" if oid in got else "rejected"
                     if op == "exist2" and oid_y not in got:
@@ -177,6 +182,40 @@ def run_seq(seq, kind, statemode, target, keep_protected=False, near=False):
                         viol.append(("checkout-materialised-a-rejected-object", f"{got} at {where}"))
                     if target in ("file", "legacy") and model == "intact" and got != {"": good_bytes}:
                         viol.append(("checkout-of-intact-object-failed", f"{got} at {where}"))
+                elif op == "xfer-verify-bad":
+                    # a verifying, expanded transfer of tree A from a generic source store whose copy of this
+                    # file object is corrupt (the destination's own verify setting stays at its default)
+                    if target != "file":
+                        continue
+                    from dvc_data.hashfile.transfer import transfer
+
+                    from ..lab import put_raw
+
+                    srcdb = make_odb("base", w.p(f"srcstore{i}"))
+                    for c in set(TREES["A"].values()):
+                        put_raw(srcdb, MD5[c], CONTENTS[c] if MD5[c] != oid else b"corrupt:" + CONTENTS[c])
+                    put_raw(srcdb, tree_oid("A"), ref.tree_bytes(listing("A")))
+                    was = open(path, "rb").read() if os.path.exists(path) else None
+                    # (the destination does not hold the directory object yet, so that the file travels as a
+                    # member of its directory)
+                    dpath = odb.oid_to_path(tree_oid("A"))
+                    if os.path.exists(dpath):
+                        os.chmod(dpath, 0o644)
+                        os.unlink(dpath)
+                    try:
+                        transfer(srcdb, odb, {hi(tree_oid("A"))}, shallow=False, verify=True, hardlink=False)
+                        res = "transferred"
+                    except Exception as e:  # noqa: BLE001
+                        res = f"raised-{type(e).__name__}"
+                    now = open(path, "rb").read() if os.path.exists(path) else None
+                    if keep_protected and kind == "local" and model == "corrupt":
+                        counted["protected_tamper_trusted"] += 1
+                    elif now is not None and now != good_bytes and now != was:
+                        # (a corrupt object that was already there and that the base store's existence query
+                        # cannot see is not the transfer's doing)
+                        viol.append(("verifying-transfer-retained-mismatching-object", f"{now[:30]!r} at {where}"))
+                    model = "intact" if now == good_bytes else ("absent" if now is None else "corrupt")
+                    continue
                 elif op.startswith("add-verify-"):
                     srcp = good if "good" in op else bad
                     errs = []
@@ -302,7 +341,7 @@ def run(ctx):
     ops = TAMPERS + QUERIES
     ctx.rule = (
         f"E2: every sequence of length {depth} over 6 tamper patterns (truncate, append, rewrite same / other "
-        "length, replace by rename, replace by rename keeping length and mtime; each followed by chmod 0o644 and a logical-clock mtime) and 9 queries (check, "
+        "length, replace by rename, replace by rename keeping length and mtime; each followed by chmod 0o644 and a logical-clock mtime) and 11 queries (check, "
         "oids_exist with 1 and 2 ids, hashfile.check(tree), checkout, add(verify) from a good and from a corrupt "
         "source, each also with check_exists=False) on a file object and on a directory object (and, sequences "
         "tamper-query / query-tamper-query, on a 1 MiB+ CRLF text object of a legacy md5-dos2unix store) x state {none, cold, warm (entry from before the "
